@@ -175,3 +175,11 @@ package td
 //@   loop 1 invariant rng: 0 <= $idx(1) && $idx(1) <= len(all) && len(out) <= $idx(1)
 //@   loop 1 invariant own: cap(out) == 0 || fresh(out)
 //@ end
+
+//@ func GcdOld
+//@   requires a > 0 && b >= 0
+//@   ensures  le: b > 0 ==> result <= b
+//@   ensures  badeq: result == b
+//@   loop 1 invariant step: (a == old(a) && b == old(b)) || (0 < a && a <= old(b) && 0 <= b && b < a)
+//@   loop 1 invariant pos:  a > 0 && b >= 0
+//@ end
